@@ -66,13 +66,14 @@ func genCaseC21(t *rapid.T, big bool) *vCaseC21 {
 	c := &vCaseC21{Sparse: rapid.Bool().Draw(t, "sparse"), Mask: byte(rapid.SampledFrom([]int{1, 0x80, 0xff, 0x20, 0x55}).Draw(t, "mask"))}
 	np := rapid.IntRange(1, 5).Draw(t, "npool")
 	for i := 0; i < np; i++ {
-		l := rapid.SampledFrom([]int{1, 1, 2, 3, 16, 31, 64, 100, 257}).Draw(t, "bloblen")
+		l := rapid.SampledFrom([]int{1, 1, 2, 3, 16, 31, 64, 100}).Draw(t, "bloblen")
 		if big {
 			l = rapid.SampledFrom([]int{4096, 9000, 20000, 65536}).Draw(t, "bigbloblen")
+			np = min(np, 3)
 		}
 		c.Pool = append(c.Pool, vBlobC21{Seed: rapid.Uint64Range(1, 1<<40).Draw(t, "blobseed"), Len: l})
 	}
-	nf := rapid.IntRange(1, 5).Draw(t, "nfiles")
+	nf := rapid.IntRange(1, 4).Draw(t, "nfiles")
 	used := map[string]bool{}
 	for i := 0; i < nf; i++ {
 		var comps []string
@@ -228,7 +229,15 @@ func (r *reportC21) add(loc string) {
 // verifyBothC21 runs VerifyFiles in abort mode and in continue mode and compares both with the
 // expected set of differing files (absolute paths).
 func verifyBothC21(ctx context.Context, res *Restorer, dst string, count uint64, nfiles int, want []string) error {
+	return verifyModeC21(ctx, res, dst, count, nfiles, want, 0)
+}
+
+// mode 0: abort mode and continue mode, 1: abort mode only, 2: continue mode only
+func verifyModeC21(ctx context.Context, res *Restorer, dst string, count uint64, nfiles int, want []string, mode int) error {
 	sort.Strings(want)
+	if mode == 2 {
+		return verifyContinueC21(ctx, res, dst, count, nfiles, want)
+	}
 	// abort mode: the first error ends the run and is returned. Once it has, the tree walker may
 	// hand (wrapped) context.Canceled errors for directories to res.Error; those are not reports.
 	rep := &reportC21{}
@@ -261,8 +270,15 @@ func verifyBothC21(ctx context.Context, res *Restorer, dst string, count uint64,
 			return fmt.Errorf("abort mode: error %q does not name the tampered file %v", err, want)
 		}
 	}
+	if mode == 1 {
+		return nil
+	}
+	return verifyContinueC21(ctx, res, dst, count, nfiles, want)
+}
+
+func verifyContinueC21(ctx context.Context, res *Restorer, dst string, count uint64, nfiles int, want []string) error {
 	// continue mode (cmd/restic counts errors and goes on): exactly the differing files are reported
-	rep = &reportC21{}
+	rep := &reportC21{}
 	res.Error = func(loc string, err error) error { rep.add(loc); return nil }
 	n, err := res.VerifyFiles(ctx, dst, count, restic.NoopCounter)
 	if err != nil {
@@ -468,7 +484,7 @@ func runCaseC21(outer testing.TB, st *verifkit.Stats, c *vCaseC21, exhaustive bo
 			lens = append(lens, c.Pool[b].Len)
 		}
 		classes = append(classes, fmt.Sprintf("blobs=%d", min(len(lens), 3)))
-		for _, tm := range tampersC21(lens, exhaustive) {
+		for _, tm := range tampersC21(lens, exhaustive && (len(orig) <= verifkit.Scale(96, 1<<20))) {
 			if tm.Kind == "swap-halves" && string(orig[tm.Pos:])+string(orig[:tm.Pos]) == string(orig) {
 				continue // e.g. the same blob twice: nothing changes
 			}
@@ -481,7 +497,11 @@ func runCaseC21(outer testing.TB, st *verifkit.Stats, c *vCaseC21, exhaustive bo
 			if !tm.differs() {
 				want = nil
 			}
-			verr := verifyBothC21(ctx, res, dst, count, len(primary), want)
+			mode := 0
+			if tm.Kind == "flip" || tm.Kind == "truncate" {
+				mode = 1 + (tm.Pos+len(tm.Kind))%2 // the two error modes alternate over the positions
+			}
+			verr := verifyModeC21(ctx, res, dst, count, len(primary), want, mode)
 			if err := undo(); err != nil {
 				fail("harness: undo %+v of %s: %v", tm, f.Path, err)
 				return
@@ -593,6 +613,9 @@ func TestVerifC21Large(t *testing.T) {
 func TestVerifC21FourKiB(t *testing.T) {
 	st := verifkit.Begin(t, "C21")
 	layouts := [][]int{{4096}, {1000, 3096}, {2048, 2048}, {1, 4094, 1}, {1365, 1365, 1366}, {4095, 1}, {512, 512, 512, 512, 512, 512, 512, 512}, {3000}}
+	if verifkit.Tier() == "quick" { // the 4 KiB sweep is left to the thorough tier
+		layouts = [][]int{{384}, {100, 284}, {192, 192}, {1, 382, 1}, {128, 128, 128}, {383, 1}, {48, 48, 48, 48, 48, 48, 48, 48}, {300}}
+	}
 	for i, l := range layouts {
 		if i%verifkit.Shards() != verifkit.Shard() {
 			continue
